@@ -78,7 +78,7 @@ ASSUMPTIONS = [
     "case per (command, exit kind, point) in a fresh interpreter through sys.exit(asyncio.run(...)) and compares the real wait status",
     "sys.exit('text') maps to 70 and ConnectionError/UDSException map to 74 only for commands declaring them (Scanner family), "
     "to 70 for a plain script - as documented in BaseCommand.CATCHED_EXCEPTIONS / entry_point",
-    "a Ctrl-C that arrives after the run's outcome is fixed (db-close, post-hook) may be reported as 130 or as the run's own code, "
+    "a Ctrl-C that arrives after the run's outcome is fixed (any await of the database completion, post-hook) may be reported as 130 or as the run's own code, "
     "but process, META.json and database must agree",
     "a lock file or database that cannot be opened is not an ending the statement's mapping lists: any non-zero status is accepted, "
     "but what exists afterwards must be consistent - a run directory that was created has a META.json with that status, its log "
@@ -572,6 +572,16 @@ def _child(case: dict[str, Any], d: Path) -> None:
             for i, h in enumerate(ST["zst"])
         ]
         obs["handlers_after"] = len(glog.handlers)
+        # Work that was already handed to the sqlite worker of a connection that is still open (e.g. a commit whose
+        # await was cancelled) is carried out by that thread no matter what; wait for it so that the database file is
+        # observed in its final state (the worker is FIFO: a marker function behind the pending calls).
+        for c in ST["cmds"]:
+            conn = c.db_handler.connection if c.db_handler is not None else None
+            th = getattr(conn, "_thread", None)
+            if conn is not None and th is not None and th.is_alive() and hasattr(conn, "_tx"):
+                done = threading.Event()
+                conn._tx.put_nowait((None, done.set))
+                done.wait(timeout=15)
         obs["cmds"] = [
             {
                 "role": c._c15_role,
